@@ -54,6 +54,23 @@ hint["k"] = ("Make it a REFACTORING SLIP: replace a hand-written expression or l
              "saturating vs wrapping vs checked arithmetic in Rust, u8/u16/u32 `as` casts that truncate, Option::unwrap_or defaults, "
              "an early return that skips a side effect, two statements merged into one. The diff should read like a clean-up commit "
              "('simplify', 'use helper', 'clippy'). Pick a site that is NOT the first one anybody would look at for this property.")
+hint["l"] = ("Make the defect RELATIONAL: it should depend on a relationship BETWEEN two values rather than on one value - two operands that "
+             "name the same or overlapping locations, a source equal to its destination, an address equal to a register's own memory-mapped cell, "
+             "a pointer register that is also the data register, a value exactly equal to (or one past) a threshold / period / capacity that is "
+             "itself configurable, two events falling on the SAME cycle, two timers whose periods are multiples of each other, a label whose "
+             "address equals a section boundary, a key pressed exactly when the strobe changes. Any one of the two values taken alone should "
+             "behave correctly. Avoid the most obvious arithmetic or table site.")
+hint["m"] = ("Start from the DOCUMENTATION: read README.md (instruction tables, flag columns, register and PRE tables, hardware notes) and the "
+             "doc comments of the anchored files, pick ONE documented clause that only one or two opcodes / one register / one device state "
+             "exercise (a flag that a single instruction leaves unchanged, the width of one operand of one opcode, which byte of a multi-byte "
+             "value goes first for one instruction, what ONE status bit does on one path, an ordering guarantee for one kind of event), and break "
+             "exactly that clause - if the property compares the Python and Rust implementations, break it identically in both so they still agree. "
+             "It should need a specific state to show (a flag already set, a non-zero upper byte, a second pending event).")
+hint["n"] = ("Put the defect in a LONG-HORIZON or ACCUMULATING quantity: something that is only wrong after many steps or many events - a counter "
+             "or index that drifts by one per wrap, a remainder that is dropped on each reconfiguration, a queue index that goes wrong only after "
+             "the ring has wrapped twice, an address or cycle count beyond 16 / 20 / 32 bits, the N-th repetition of an auto-repeat, the third nested "
+             "level, a phase that is lost on the second restore. Short runs from a fresh object, and any single operation, must still behave "
+             "correctly. Avoid the most obvious arithmetic or table site.")
 hint = hint[variant]
 print(f"""You are helping test a verification framework for the repository mblsha/binja-esr (a Binary Ninja plugin + emulator for the Sharp SC62015 CPU: decoder/encoder, LLIL lifter, assembler, PC-E500 machine emulator in Python under pce500/, and a Rust core under sc62015/core).
 
